@@ -103,7 +103,18 @@ func genC12Hist(rt *rapid.T) *C12Spec {
 	s := &C12Spec{}
 	n := rapid.IntRange(1, 12).Draw(rt, "nhist")
 	for i := 0; i < n; i++ {
-		s.History = append(s.History, genAbnormalCase(rt, false))
+		hc := genAbnormalCase(rt, false)
+		if rapid.IntRange(0, 3).Draw(rt, "histreg") == 0 {
+			// the history call runs under another registry of safe types than
+			// the probes (which run under the empty one, like their references):
+			// nothing remembered about a type may survive the call
+			for _, k := range append(append([]string{}, regKindsAll...), "str", "int") {
+				if rapid.IntRange(0, 2).Draw(rt, "hreg") == 0 {
+					hc.Reg = append(hc.Reg, k)
+				}
+			}
+		}
+		s.History = append(s.History, hc)
 		s.Probes = append(s.Probes, rapid.IntRange(-1, len(probeBattery)-1).Draw(rt, "probe"))
 	}
 	return s
